@@ -529,7 +529,93 @@ def r01_4(prog: Program, rep):
            and "cmp_with_suffix ( ( a . 1 , a . 0 . as_slice ( ) ) , ( b . 1 , b . 0 . as_slice ( ) ) )" in t, "", sti_rs.line)
 
 
+def r01_6(prog: Program, rep):
+    """Optional numeric fields are tested with `is None`: 0 is a valid time (the epoch) and a valid timezone (UTC), so a
+    truthiness test in a serializer silently drops or rewrites the field for exactly those values."""
+    m = prog.module(OBJ)
+    n = 0
+    for cname in concrete_classes(prog):
+        cls = m.classes[cname].node
+        numeric = set()
+        for s_ in cls.body:
+            if isinstance(s_, ast.AnnAssign) and isinstance(s_.target, ast.Name) and "int" in norm(s_.annotation):
+                numeric.add(s_.target.id)
+        props = class_props(prog, cname)
+        for a in serialized_attrs(prog, cname):
+            if a.endswith("_time") or a.endswith("_timezone"):
+                numeric.add(a)
+        public = {p_ for p_, back in props.items() if back in numeric}
+        if not numeric:
+            continue
+        ser = prog.method(cname, "_serialize")
+        if ser is None:
+            continue
+
+        def is_num_attr(e):
+            return isinstance(e, ast.Attribute) and isinstance(e.value, ast.Name) and e.value.id == "self" and (e.attr in numeric or e.attr in public)
+        tests = []
+        for x in ast.walk(ser.node):
+            if isinstance(x, (ast.If, ast.IfExp, ast.While)):
+                tests.append(x.test)
+            elif isinstance(x, ast.Assert):
+                tests.append(x.test)
+        bad = []
+        for t in tests:
+            stack = [t]
+            while stack:
+                e = stack.pop()
+                if isinstance(e, ast.BoolOp):
+                    stack.extend(e.values)
+                elif isinstance(e, ast.UnaryOp) and isinstance(e.op, ast.Not):
+                    stack.append(e.operand)
+                elif is_num_attr(e):
+                    bad.append(e)
+        n += 1
+        rep.ob("R01.6", OBJ, ser.qual, f"numeric fields ({', '.join(sorted(numeric))}) are tested with `is None`, never by truthiness", not bad,
+               (f"`{norm(bad[0])}` is tested by truthiness: the value 0 (epoch / UTC) is treated as absent, the field is dropped or "
+                f"rewritten and the object gets another id") if bad else "", bad[0].lineno if bad else ser.node.lineno)
+    if n < 2:
+        raise AnalysisError(f"expected >= 2 serializers with numeric fields (Commit, Tag), found {n}")
+
+
+GIT_HEADER_ORDER = {
+    # git's commit.c / tag.c write headers in this order; unknown (extra) headers sit after the known ones and before the
+    # signature, which is always last
+    "Commit": ["_TREE_HEADER", "_PARENT_HEADER", "_AUTHOR_HEADER", "_COMMITTER_HEADER", "_ENCODING_HEADER", "_MERGETAG_HEADER", "<extra>",
+               "_GPGSIG_HEADER"],
+    "Tag": ["_OBJECT_HEADER", "_TYPE_HEADER", "_TAG_HEADER", "_TAGGER_HEADER"],
+}
+
+
+def r01_7(prog: Program, rep):
+    """Header ORDER is part of the bytes that are hashed: the serializers emit headers in git's order (frozen reference)."""
+    m = prog.module(OBJ)
+    for cname, want in GIT_HEADER_ORDER.items():
+        ser = prog.method(cname, "_serialize")
+        if ser is None:
+            raise AnalysisError(f"{cname}._serialize not found")
+        seq = []
+        for c in sorted([c for c in ast.walk(ser.node) if isinstance(c, ast.Call) and isinstance(c.func, ast.Attribute)
+                         and c.func.attr in ("append", "extend", "insert") and isinstance(c.func.value, ast.Name)], key=lambda c: (c.lineno, c.col_offset)):
+            consts = [x.id for a in c.args for x in ast.walk(a) if isinstance(x, ast.Name) and x.id.endswith("_HEADER")]
+            if consts:
+                tag = consts[0]
+            elif any(isinstance(x, ast.Attribute) and x.attr in ("_extra", "extra") for a in c.args for x in ast.walk(a)):
+                tag = "<extra>"
+            else:
+                continue
+            if c.func.attr == "insert":
+                tag = "insert:" + tag
+            if not seq or seq[-1] != tag:
+                seq.append(tag)
+        rep.ob("R01.7", OBJ, ser.qual, f"headers are emitted in git's order ({' '.join(h.strip('_').replace('_HEADER', '').lower() for h in want)})",
+               seq == want, f"emitted order: {seq}: a commit or tag that carries the reordered headers is rewritten with other bytes and gets "
+               f"another id than git computes", ser.node.lineno)
+
+
 def run(prog: Program, rep, tier="quick"):
+    rep.rule("R01.7", "TABLE-AGREE with git: header emission order of Commit/Tag serializers (extra headers before gpgsig, signature last)")
+    rep.rule("R01.6", "optional numeric fields (times, timezones) are tested with `is None` in the serializers: 0 is a value")
     rep.rule("R01.1", "NO-EVENT-IN-STATE: stores to serialised attributes are paired with invalidation of the cached id "
                       "on all paths (fresh receivers exempt by typestate)")
     rep.rule("R01.2", "cached hash returned only under a clear dirty flag; reset on re-serialise; only ShaFile reads _sha")
@@ -545,6 +631,8 @@ def run(prog: Program, rep, tier="quick"):
     r01_3(prog, rep)
     r01_4(prog, rep)
     r01_5(prog, rep)
+    r01_6(prog, rep)
+    r01_7(prog, rep)
     rep.floor("R01.1", 10)
     rep.floor("R01.2", 8)
     rep.floor("R01.3", 20)
